@@ -43,6 +43,12 @@ def execute(pid, chk, overrides=None):
         _rep.NEW_PRIVATE = private_names(ctx.repo) - frozen
     except Exception:
         _rep.NEW_PRIVATE = set()
+    try:
+        with open(os.path.join(os.path.dirname(os.path.dirname(os.path.abspath(__file__))),
+                               "signatures.json")) as fh:
+            _ip.REF_SIGNATURES = json.load(fh)
+    except Exception:
+        _ip.REF_SIGNATURES = {}
     # a host-vector layout whose index expressions were not decoded makes every column
     # classification a guess: nothing derived from it is a verdict
     # (only when a documented column family is left without an index attribute: an extra class
